@@ -167,5 +167,7 @@ for kind, nl in (("STR", 2), ("PREFIX", 3), ("STR_NOACCENT", 6), ("PREFIX_NOACCE
     U(name="U.cmpf." + kind.lower(), harness="harness/cmp_rule.c", mode="H", loops=True, profiles=["cmpf"],
       defines=["CMP_" + kind], functions=["compare_" + kind.lower(), "compare_" + kind.lower() + "_wrap"], loop_contracts=["compare_" + kind.lower()],
       expect_loop_obligations=nl, chars=("signed", "unsigned"), unwind=POLYSEED_STR_SIZE_PLUS1, props=["C08", "C07", "C19"], timeout=1800)
+U(name="L.cmpf.axioms", harness="harness/cmp_rule.c", mode="P", defines=["CMP_PREFIX_NOACCENT", "LEMMA_AXIOMS"], props=["C08", "C07", "C19"])
+U(name="U.dep.stdlib_time", harness="harness/dep_stdlib_time.c", mode="P", functions=["stdlib_time"], props=["C11", "C18"])
 
 BY_NAME = {u.name: u for u in UNITS}
